@@ -139,7 +139,8 @@ fn search(spec: &CmdSpec, with_build: bool, depth: u32, cap: usize) -> SearchOut
     let pr = probes(spec);
     let fresh = build(spec);
     // reference results from a fresh definition, one fresh definition per probe
-    let reference: Vec<Res> = pr.iter().map(|a| run_parse(&mut fresh.clone(), spec, a)).collect();
+    // (built anew from the spec each time, never cloned: cloning is one of the operations under test)
+    let reference: Vec<Res> = pr.iter().map(|a| run_parse(&mut build(spec), spec, a)).collect();
     let mut ops: Vec<Op> = (0..pr.len()).map(Op::Parse).collect();
     if with_build {
         ops.push(Op::Build);
